@@ -283,7 +283,7 @@ theorem position_congr (bf bf2 : Bloom) (item : Bytes) (i : Nat) (hs : bf2.size 
 theorem addFrom_spec (item : Bytes) (n : Nat) : ∀ (bf bf' : Bloom) (i : Nat),
     bf.addFrom item n i = some bf' →
     (bf'.bitField.length = bf.bitField.length ∧ bf'.size = bf.size ∧ bf'.fc = bf.fc ∧ bf'.tweak = bf.tweak)
-    ∧ (∀ k, bf.bitField[k]? = some true → bf'.bitField[k]? = some true)
+    ∧ (∀ k : Nat, bf.bitField[k]? = some true → bf'.bitField[k]? = some true)
     ∧ (∀ j, i ≤ j → j < i + n → ∃ pos, bf.position item j = some pos ∧ bf'.bitField[pos]? = some true) := by
   induction n with
   | zero =>
@@ -303,7 +303,7 @@ theorem addFrom_spec (item : Bytes) (n : Nat) : ∀ (bf bf' : Bloom) (i : Nat),
       · rw [if_pos hb] at h
         obtain ⟨⟨e1, e2, e3, e4⟩, hmono, hset⟩ := ih _ _ _ h
         simp only [List.length_set] at e1
-        have hstep : ∀ k, bf.bitField[k]? = some true → (bf.bitField.set bit true)[k]? = some true := by
+        have hstep : ∀ k : Nat, bf.bitField[k]? = some true → (bf.bitField.set bit true)[k]? = some true := by
           intro k hk
           rw [List.getElem?_set]
           by_cases hbk : bit = k
@@ -338,7 +338,7 @@ theorem bloom_add_sets (bf bf' : Bloom) (item : Bytes) (h : bf.add item = some b
 theorem bloom_adds_mono (items : List Bytes) : ∀ (bf bf' : Bloom),
     items.foldlM (fun b it => b.add it) bf = some bf' →
     (bf'.bitField.length = bf.bitField.length ∧ bf'.size = bf.size ∧ bf'.fc = bf.fc ∧ bf'.tweak = bf.tweak)
-    ∧ (∀ k, bf.bitField[k]? = some true → bf'.bitField[k]? = some true) := by
+    ∧ (∀ k : Nat, bf.bitField[k]? = some true → bf'.bitField[k]? = some true) := by
   induction items with
   | nil =>
     intro bf bf' h
